@@ -28,6 +28,14 @@ impl File {
     pub uninterp spec fn len(&self) -> u64;         // current length
     // a fact that only grows while the handle lives (the code never truncates): the file is at least n bytes long
     pub uninterp spec fn allocated_at_least(&self, n: u64) -> bool;
+    // the process holds the exclusive advisory lock (flock) on the open file description behind this handle.  Like
+    // allocated_at_least this is a fact about the HANDLE that no operation of the stand-in takes away: the lock is
+    // released only when the handle is dropped (OS semantics, assumed)
+    pub uninterp spec fn lock_held(&self) -> bool;
+    // the operating system refused the lock request / the mapping of this handle (the only reasons for which opening a
+    // sound file may fail)
+    pub uninterp spec fn lock_refused(&self) -> bool;
+    pub uninterp spec fn map_refused(&self) -> bool;
     pub open spec fn keeps_allocation(&self, before: &File) -> bool {
         forall|n: u64| before.allocated_at_least(n) ==> #[trigger] self.allocated_at_least(n)
     }
